@@ -154,6 +154,65 @@ def lgGetField {V} (env : Env V) (name : Str) (auto : Option Nat) : Except Err (
     | .error e => .error e
     | .ok v => .ok (v, auto1)
 
+/-- the locals of `_parse_with_formatting` while one replacement field is evaluated -/
+structure FieldState (V : Type) where
+  obj : Option V          -- `obj` (unset before the lookup)
+  spec : Str              -- `format_spec`
+  auto : Option Nat       -- `auto_arg_index`
+  out : Option Str        -- `formatted` (unset before `format_field`)
+
+/-- one statement of the field evaluation (`Gen.fieldEval` lists them in source order) -/
+def fieldStep {V} (self : Str → Option Nat → Except Err (Str × Option Nat)) (feedV : Str → Except Err Str)
+    (env : Env V) (f : Field) (s : FieldState V) : EvalStep → Except Err (FieldState V)
+  | .lookup =>
+    match lgGetField env f.name s.auto with
+    | .error e => .error e
+    | .ok (v, a) => .ok { s with obj := some v, auto := a }
+  | .convert =>
+    match s.obj with
+    | none => .error .other
+    | some v =>
+      match doConv env f.conv v with
+      | .error e => .error e
+      | .ok v' => .ok { s with obj := some v' }
+  | .expand =>
+    match self s.spec s.auto with
+    | .error e => .error e
+    | .ok (sp, a) => .ok { s with spec := sp, auto := a }
+  | .format =>
+    match s.obj with
+    | none => .error .other
+    | some v =>
+      match env.format v s.spec with
+      | .error e => .error e
+      | .ok x => .ok { s with out := some x }
+  | .feed =>
+    match s.out with
+    | none => .error .other
+    | some x =>
+      match feedV x with
+      | .error e => .error e
+      | .ok y => .ok { s with out := some y }
+
+def fieldRun {V} (self : Str → Option Nat → Except Err (Str × Option Nat)) (feedV : Str → Except Err Str)
+    (env : Env V) (f : Field) : List EvalStep → FieldState V → Except Err (FieldState V)
+  | [], s => .ok s
+  | st :: rest, s =>
+    match fieldStep self feedV env f s st with
+    | .error e => .error e
+    | .ok s' => fieldRun self feedV env f rest s'
+
+/-- one replacement field: the statements REGENERATED from /repo (`Gen.fieldEval`), in source order;
+returns the text handed to the markup parser's output and the new counter -/
+def evalField {V} (self : Str → Option Nat → Except Err (Str × Option Nat)) (feedV : Str → Except Err Str)
+    (env : Env V) (f : Field) (auto : Option Nat) : Except Err (Str × Option Nat) :=
+  match fieldRun self feedV env f Gen.fieldEval { obj := none, spec := f.spec, auto := auto, out := none } with
+  | .error e => .error e
+  | .ok s =>
+    match s.out with
+    | none => .error .other
+    | some x => .ok (x, s.auto)
+
 def pwfPieces {V} (self : Str → Option Nat → Except Err (Str × Option Nat))
     (feedL feedV : Str → Except Err Str) (env : Env V) :
     List Piece → Option Nat → Except Err (Str × Option Nat)
@@ -168,24 +227,12 @@ def pwfPieces {V} (self : Str → Option Nat → Except Err (Str × Option Nat))
         | .ok (r, a) => .ok (lit ++ r, a)
         | .error e => .error e
       | some f =>
-        match lgGetField env f.name auto with
+        match evalField self feedV env f auto with
         | .error e => .error e
-        | .ok (v, auto1) =>
-          match doConv env f.conv v with
+        | .ok (s, auto2) =>
+          match pwfPieces self feedL feedV env ps auto2 with
+          | .ok (r, a) => .ok (lit ++ s ++ r, a)
           | .error e => .error e
-          | .ok v =>
-            match self f.spec auto1 with
-            | .error e => .error e
-            | .ok (spec, auto2) =>
-              match env.format v spec with
-              | .error e => .error e
-              | .ok s =>
-                match feedV s with
-                | .error e => .error e
-                | .ok s =>
-                  match pwfPieces self feedL feedV env ps auto2 with
-                  | .ok (r, a) => .ok (lit ++ s ++ r, a)
-                  | .error e => .error e
 
 /-- `_parse_with_formatting(…, recursive=rec)` with `levels` nesting levels left; returns the stripped
 text.  Which texts go through the markup parser is REGENERATED: the literal text of the template only
